@@ -131,12 +131,23 @@ class FieldSpec:
     shape: str
     dkind: str               # no|val|fac
     dsrc: str | None
-    alias: str | None
+    alias: str | None        # the alias in effect (what __get_field_alias answers)
     omit: bool
+    asrc: str = "meta"       # where the alias is written: "meta" = field metadata, "config" = the class-level table
+                             # Config.aliases, "annot" = Annotated[<type>, Alias(...)]  (the three sources of __get_field_alias)
+    cshadow: str | None = None   # a Config.aliases entry for a field whose metadata names another alias (metadata wins)
 
     @property
     def sh(self) -> Shape:
         return SHAPE[self.shape]
+
+    @property
+    def ty_src(self) -> str:
+        return f"Annotated[{self.sh.ty}, Alias({self.alias!r})]" if (self.asrc == "annot" and self.alias is not None) else self.sh.ty
+
+    @property
+    def fty(self) -> str:
+        return f"(TyAnnotated {self.sh.fty})" if (self.asrc == "annot" and self.alias is not None) else self.sh.fty
 
     @property
     def nullable(self) -> bool:      # as CodeBuilder.is_field_nullable sees it
@@ -192,6 +203,7 @@ from mashumaro.config import (BaseConfig, TO_DICT_ADD_OMIT_NONE_FLAG, TO_DICT_AD
                               ADD_DIALECT_SUPPORT, ADD_SERIALIZATION_CONTEXT)
 from mashumaro.dialect import Dialect
 from mashumaro.mixins.toml import DataClassTOMLMixin
+from mashumaro.types import Alias
 T = TypeVar("T")
 B = TypeVar("B", bound=Optional[int])
 class Color(enum.Enum):
@@ -212,15 +224,15 @@ def field_line(f: FieldSpec, plain: bool) -> str:
     elif f.dkind == "fac":
         args.append(f"default_factory={f.dsrc}")
     md = {}
-    if f.alias is not None:
+    if f.alias is not None and f.asrc == "meta":
         md["alias"] = f.alias
     if f.omit and not plain:
         md["serialize"] = "omit"
     if md:
         args.append(f"metadata={md!r}")
     if not args:
-        return f"    {f.name}: {f.sh.ty}"
-    return f"    {f.name}: {f.sh.ty} = field({', '.join(args)})"
+        return f"    {f.name}: {f.ty_src}"
+    return f"    {f.name}: {f.ty_src} = field({', '.join(args)})"
 
 
 def flags_src(fon, fba, fdl, fcx) -> str:
@@ -236,8 +248,22 @@ def flags_src(fon, fba, fdl, fcx) -> str:
     return "[" + ", ".join(fl) + "]"
 
 
-def config_lines(o: Opts, cfgd_name: str | None) -> list[str]:
+def config_aliases(fields) -> dict:
+    """the class-level alias table Config.aliases the field list asks for"""
+    out = {}
+    for f in fields:
+        if isinstance(f, FieldSpec):
+            if f.alias is not None and f.asrc == "config":
+                out[f.name] = f.alias
+            elif f.alias is not None and f.cshadow is not None:
+                out[f.name] = f.cshadow
+    return out
+
+
+def config_lines(o: Opts, cfgd_name: str | None, aliases: dict | None = None) -> list[str]:
     cfg = []
+    if aliases:
+        cfg.append(f"        aliases = {aliases!r}")
     for i in range(3):
         if o.cfg[i] != "U":
             cfg.append(f"        {OPTN[i]} = {_TV[o.cfg[i]]}")
@@ -260,7 +286,7 @@ def class_source(name: str, fields: list, o: Opts | None, extra_lines: list[str]
     lines = [field_line(f, o is None) if isinstance(f, FieldSpec) else f for f in fields] + (extra_lines or [])
     src += ("\n".join(lines) if lines else "    pass") + "\n"
     if o is not None:
-        cfg = config_lines(o, cfgd_name if o.cfgd is not None else None)
+        cfg = config_lines(o, cfgd_name if o.cfgd is not None else None, config_aliases(fields))
         if cfg and o.cfg_style == 0:
             src += "    class Config(BaseConfig):\n" + "\n".join(cfg) + "\n"
         elif cfg and o.cfg_style == 1:
@@ -445,7 +471,10 @@ TOML_SHAPES = ("int", "float", "str", "bool", "optint", "any", "int_none", "list
                "fin_ann_optint", "ann_any", "wide_union")       # values identical in to_dict and after a TOML round trip
 
 
-def gen_fields(rng, nmax=6, collide=0.08, shapes=None) -> list[FieldSpec]:
+def gen_fields(rng, nmax=6, collide=0.08, shapes=None, cfg_alias=0.0) -> list[FieldSpec]:
+    """cfg_alias: probability that the class writes its aliases into Config.aliases (per class; then per field: the table,
+    the field metadata, Annotated[..., Alias()], or the table shadowed by one of the other two); 0: metadata only"""
+    table = rng.random() < cfg_alias if cfg_alias else False
     n = rng.randint(1, nmax)
     names = rng.sample(NAMES, n)
     aliases = rng.sample(ALIASES, len(ALIASES))
@@ -458,7 +487,21 @@ def gen_fields(rng, nmax=6, collide=0.08, shapes=None) -> list[FieldSpec]:
             al = aliases[i % len(aliases)]
             if rng.random() < collide:       # an alias equal to another field's name / alias: keys merge
                 al = rng.choice(names + [aliases[0]])
-        fields.append(FieldSpec(nm, sh.key, dk, ds, al, rng.random() < 0.12))
+        omit = rng.random() < 0.12
+        asrc, shadow = "meta", None
+        if cfg_alias and al is not None:
+            r = rng.random()
+            can_annot = not sh.ty.startswith("Final[")
+            if table:
+                if r < 0.5:
+                    asrc = "config"
+                elif r < 0.65:
+                    shadow = aliases[(i + 3) % len(aliases)]                  # metadata wins over the table
+                elif r < 0.8 and can_annot:
+                    asrc, shadow = "annot", aliases[(i + 3) % len(aliases)]   # Annotated Alias wins over the table
+            elif r < 0.25 and can_annot:
+                asrc = "annot"
+        fields.append(FieldSpec(nm, sh.key, dk, ds, al, omit, asrc, shadow))
     return fields
 
 
@@ -592,7 +635,7 @@ def coq_field(f: FieldSpec, defaults: dict, enc: PvEnc) -> str:
         d = f"(DVal {enc(defaults[f.name])})"
     else:
         d = f"(DFac {enc(defaults[f.name])})"
-    return f"(P {coq_str(f.name)} {al} {f.sh.fty} {coq_bool(f.sh.trivial)} {d} {coq_bool(f.omit)})"
+    return f"(P {coq_str(f.name)} {al} {f.fty} {coq_bool(f.sh.trivial)} {d} {coq_bool(f.omit)})"
 
 
 def coq_case(o: Opts, fields, defaults, inst, plain: dict, observed, real_nullable=None) -> str:
@@ -1591,7 +1634,7 @@ def run_flat(ctx: vlib.Ctx, cases: list[str], case_info: list, ecases: dict | No
     for ci in range(n_classes):
         r = rng.random()
         entry = "codec" if r < 0.2 else ("toml" if r < 0.32 else "to_dict")
-        fields = gen_fields(rng, shapes=TOML_SHAPES if entry == "toml" else None)
+        fields = gen_fields(rng, shapes=TOML_SHAPES if entry == "toml" else None, cfg_alias=0.45)
         o0 = gen_opts(rng, "to_dict" if entry == "toml" else entry)
         if entry == "toml":
             o0 = replace(o0, entry="toml", dd=("T", "U", "U"), lazy=False)
@@ -1803,6 +1846,9 @@ def run(ctx: vlib.Ctx):
     ctx.theorems("props/C08_kernel_K17.vo", ["K17_nullable", "K17_nullable_declared_partial", "K17_bound_refuted"], kernels=["K17"])
     ctx.theorems("props/C08_kernel_K18.vo", ["K18_bookkeeping", "K18_use_kwargs"], kernels=["K18", "K8"])
     ctx.theorems("props/C08_kernel_K108a.vo", ["K108a_set_value", "K108a_emit_kw", "K108a_field"], kernels=["K108a"])
+    ctx.theorems("props/C08_kernel_K108b.vo", ["K108b_key", "K108b_order", "K108b_body", "C08_alias_sources", "C08_alias_key"],
+                 kernels=["K108b", "K4"])
+    ctx.theorems("props/C08_kernel_K108c.vo", ["K108c_literal_part", "K108c_table_one"], kernels=["K108c", "K18"])
     ctx.theorems("props/C08_project.vo", thm)
     ctx.theorems("props/C08_fix.vo", ["C08_project_fixed_full"])
     ctx.theorems("props/C08_nested.vo", ["C08_nested_partial", "C08_union_flags_refuted", "C08_subclass_flags_refuted", "C08_forwarded_exactly", "C08_no_leak",
@@ -1814,9 +1860,9 @@ def run(ctx: vlib.Ctx):
         with vlib.Lock("build"):
             rc, out, _ = vlib.run(["timeout", "600", "coqchk", "-silent", "-o", "-Q", "theories", "Verif", "-Q", "gen", "VerifGen",
                                    "-Q", "props", "VerifProps", "VerifProps.C08_project", "VerifProps.C08_nested",
-                                   "VerifProps.C08_kernel_K3", "VerifProps.C08_kernel_K8", "VerifProps.C08_kernel_K14", "VerifProps.C08_kernel_K17", "VerifProps.C08_kernel_K18", "VerifProps.C08_kernel_K13F", "VerifProps.C08_kernel_K108a", "VerifProps.C08_fix"], cwd=vlib.COQ, timeout=640)
+                                   "VerifProps.C08_kernel_K3", "VerifProps.C08_kernel_K8", "VerifProps.C08_kernel_K14", "VerifProps.C08_kernel_K17", "VerifProps.C08_kernel_K18", "VerifProps.C08_kernel_K13F", "VerifProps.C08_kernel_K108a", "VerifProps.C08_kernel_K108b", "VerifProps.C08_kernel_K108c", "VerifProps.C08_fix"], cwd=vlib.COQ, timeout=640)
         ok = rc == 0 and "Axioms: <none>" in out
-        ctx.obligation("coqchk -o (C08_project, C08_nested, C08_fix, C08_kernel_K3/K8/K13F/K14/K17/K18/K108a): no axioms", ok, out[-600:])
+        ctx.obligation("coqchk -o (C08_project, C08_nested, C08_fix, C08_kernel_K3/K8/K13F/K14/K17/K18/K108a/K108b/K108c): no axioms", ok, out[-600:])
         if not ok:
             ctx.not_shown("coqchk", out[-1500:])
 
